@@ -25,7 +25,7 @@ use truc::{
     },
     record::{
         definition::{
-            builder::native::{variant, NativeRecordDefinitionBuilder},
+            builder::native::{variant, DatumDefinitionOverride, NativeRecordDefinitionBuilder},
             DatumId, NativeDatumDetails, RecordDefinition,
         },
         type_resolver::{HostTypeResolver, StaticTypeResolver, TypeResolver},
@@ -103,6 +103,76 @@ macro_rules! with_key_any {
             other => with_key!(other, $b, add_datum, $name),
         }
     };
+}
+
+macro_rules! with_key_override {
+    ($key:expr, $b:ident, $name:expr, $ov:expr) => {
+        match $key {
+            "P1" => $b.add_datum_override::<lab_types::P1, _>($name, $ov),
+            "P2" => $b.add_datum_override::<lab_types::P2, _>($name, $ov),
+            "P4" => $b.add_datum_override::<lab_types::P4, _>($name, $ov),
+            "P8" => $b.add_datum_override::<lab_types::P8, _>($name, $ov),
+            "P16" => $b.add_datum_override::<lab_types::P16, _>($name, $ov),
+            "Odd3" => $b.add_datum_override::<lab_types::Odd3, _>($name, $ov),
+            "Odd12" => $b.add_datum_override::<lab_types::Odd12, _>($name, $ov),
+            "Odd24" => $b.add_datum_override::<lab_types::Odd24, _>($name, $ov),
+            "Over16" => $b.add_datum_override::<lab_types::Over16, _>($name, $ov),
+            "Zst" => $b.add_datum_override::<lab_types::Zst, _>($name, $ov),
+            "ZstA8" => $b.add_datum_override::<lab_types::ZstA8, _>($name, $ov),
+            "ZstDrop" => $b.add_datum_override::<lab_types::ZstDrop, _>($name, $ov),
+            "Tracked" => $b.add_datum_override::<lab_types::Tracked, _>($name, $ov),
+            "TrackedOdd" => $b.add_datum_override::<lab_types::TrackedOdd, _>($name, $ov),
+            "TrackedBig" => $b.add_datum_override::<lab_types::TrackedBig, _>($name, $ov),
+            "Str" => $b.add_datum_override::<lab_types::Str, _>($name, $ov),
+            "VecU" => $b.add_datum_override::<lab_types::VecU, _>($name, $ov),
+            "RcT" => $b.add_datum_override::<lab_types::RcT, _>($name, $ov),
+            other => panic!("unknown key {}", other),
+        }
+    };
+}
+
+/// C11: one single-module probe crate target per case of the matrix TLC enumerated.
+fn probe_mode(cases_path: &str, crate_dir: &str) {
+    std::fs::create_dir_all(format!("{}/src/bin", crate_dir)).unwrap();
+    std::fs::create_dir_all(format!("{}/src/gen", crate_dir)).unwrap();
+    let input = BufReader::new(File::open(cases_path).expect("cases"));
+    let mut report = Vec::new();
+    for line in input.lines() {
+        let line = line.unwrap();
+        if line.trim().is_empty() {
+            continue;
+        }
+        let c: Value = serde_json::from_str(&line).expect("case json");
+        let n = c["id"].as_u64().unwrap();
+        let key = c["key"].as_str().unwrap();
+        let res = catch_unwind(AssertUnwindSafe(|| {
+            let mut b = NativeRecordDefinitionBuilder::new(HostTypeResolver);
+            if c["where"].as_u64().unwrap() == 2 {
+                b.add_datum::<lab_types::P4, _>("first").unwrap();
+                b.close_record_variant();
+            }
+            let ov = DatumDefinitionOverride {
+                type_name: None,
+                size: Some(c["rsize"].as_u64().unwrap() as usize),
+                align: Some(c["ralign"].as_u64().unwrap() as usize),
+                allow_uninit: Some(c["runinit"].as_bool().unwrap()),
+            };
+            with_key_override!(key, b, "target", ov).unwrap();
+            b.close_record_variant();
+            let def = b.build();
+            generate(&def, &GeneratorConfig::default())
+        }));
+        match res {
+            Ok(code) => {
+                File::create(format!("{}/src/gen/p{}_gen.rs", crate_dir, n)).unwrap().write_all(code.as_bytes()).unwrap();
+                let main = format!("#![allow(unused, clippy::all)]\n#[macro_use]\nextern crate static_assertions;\nmod gen {{ include!(\"../gen/p{}_gen.rs\"); }}\nfn main() {{}}\n", n);
+                File::create(format!("{}/src/bin/p{}.rs", crate_dir, n)).unwrap().write_all(main.as_bytes()).unwrap();
+                report.push(json!({"id": n, "status": "ok"}));
+            }
+            Err(_) => report.push(json!({"id": n, "status": "panic"})),
+        }
+    }
+    println!("{}", Value::Array(report));
 }
 
 fn static_table() -> StaticTypeResolver {
@@ -394,6 +464,10 @@ fn main() {
         std::process::exit(2);
     }
     std::panic::set_hook(Box::new(|_| {}));
+    if args[1] == "--probe" {
+        probe_mode(&args[2], &args[3]);
+        return;
+    }
     let out_dir = &args[2];
     std::fs::create_dir_all(out_dir).unwrap();
     let input = BufReader::new(File::open(&args[1]).expect("defs"));
